@@ -95,3 +95,19 @@ Definition cmp_multi_iter (defect : bool) (kinds : list bool) (comps : list ds)
   res_eqb (list_eqb (list_eqb ds_eqb))
           (seq_iter (S (multi_len comps)) (fun i => getitem_multi (multi_gets defect kinds comps) (IInt i)) 0)
           impl.
+
+(* ---- batches (one parent, many indices): results interleaved [ok0; def0; ok1; def1; ...] *)
+Definition getitem_batch (parent : ds) (cases : list (index * res ds)) : list bool :=
+  flat_map (fun c => [cmp_getitem parent (fst c) (snd c); cmp_getitem_def parent (fst c) (snd c)]) cases.
+Definition multi_getitem_batch (kinds : list bool) (comps : list ds) (cases : list (index * res (list ds))) : list bool :=
+  flat_map (fun c => [cmp_multi_getitem false kinds comps (fst c) (snd c);
+                      cmp_multi_getitem true kinds comps (fst c) (snd c)]) cases.
+Definition concat_batch (cases : list (list ds * ds)) : list bool :=
+  flat_map (fun c => [cmp_concat (fst c) (snd c); cmp_concat_def (fst c) (snd c)]) cases.
+
+(* multivariate concatenation; pieces are given per component *)
+Definition multi_cats (defect : bool) (kinds : list bool) : list (list ds -> ds) :=
+  map (fun k : bool => if k && defect then relabel_shift else concatenate) kinds.
+Definition multi_concat_batch (kinds : list bool) (cases : list (list (list ds) * res (list ds))) : list bool :=
+  flat_map (fun c => [res_eqb (list_eqb ds_eqb) (concatenate_multi (multi_cats false kinds) (fst c)) (snd c);
+                      res_eqb (list_eqb ds_eqb) (concatenate_multi (multi_cats true kinds) (fst c)) (snd c)]) cases.
